@@ -171,6 +171,9 @@ def classify_death(rc, stderr_tail):
             name = signal.Signals(-rc).name
         except ValueError:
             name = str(-rc)
+        if name in ("SIGTERM", "SIGKILL", "SIGINT", "SIGHUP"):
+            # delivered from outside (operator, OOM killer): not something the code under test did
+            return "resource", f"worker killed from outside by {name}"
         return f"signal-{name}", text
     return f"exit-{rc}", text
 
